@@ -1,5 +1,7 @@
 import IrVerif.Drive.Util
 import IrVerif.Model.Layout
+import IrVerif.Model.LayoutSt
+import IrVerif.Model.LayoutSeq
 /-! Protocol handler for `IrVerif.Layout` (property C07).  Commands `layout.*`.
 Optional naturals are JSON `null` or a number; byte strings travel as lower-case hex. -/
 open Lean IrVerif.Drive
@@ -64,8 +66,126 @@ def optNatJ : Option Nat → Json
   | none => Json.null
   | some n => toJson n
 
+def nameBytes (s : String) : List Nat := s.toUTF8.toList.map (·.toNat)
+
+/-- tensors handed to the safetensors writer: {"name": str, "dtype": code, "shape": [..], "b": hex} -/
+def getStTensors (j : Json) (k : String) : Except String (List StTensor) := do
+  let arr ← getArr j k
+  arr.mapM fun e => do
+    let nm ← e.getObjValAs? String "name"
+    let code ← e.getObjValAs? Nat "dtype"
+    let shape ← e.getObjValAs? (Array Nat) "shape"
+    let b ← e.getObjValAs? String "b"
+    match IrVerif.TensorRepr.DType.ofCode code with
+    | some d => pure { name := nameBytes nm, dtype := d, shape := shape.toList, bytes := ofHex b }
+    | none => throw s!"bad dtype code {code}"
+
+def entryJ (e : StEntry) : Json :=
+  Json.arr #[Json.str (toHex e.name), Json.str e.sd.headerName, natsJ e.hshape, toJson e.start, toJson e.stop]
+
+def optPlacementJ : Option Placement → Json
+  | none => Json.null
+  | some p => natsJ [p.shard, p.total, p.offset, p.length]
+
+def refJ : Ref FileKey → Json
+  | .inline _ => Json.arr #[Json.str "I"]
+  | .stale => Json.arr #[Json.str "S"]
+  | .ext (b, i, n) off len => Json.arr #[Json.str "E", toJson b, toJson i, toJson n, toJson off, toJson len]
+
+def getSeqOp (e : Json) : Except String (SeqOp FileKey) := do
+  let op ← e.getObjValAs? String "op"
+  match op with
+  | "load" => pure .load
+  | "load_to_model" => pure .loadToModel
+  | "convert" => pure (.convertFromExternal (← e.getObjValAs? Nat "k"))
+  | _ =>
+    let b := rawBackend (← e.getObjValAs? Nat "base") (← e.getObjValAs? Int "thr") (← getOptNat e "max")
+      (← getOptNat e "al") (← e.getObjValAs? Nat "athr")
+    if op = "unload" then pure (.unload b) else pure (.save b)
+
 def handle : Handler := fun m j =>
   match m with
+  | "layout.seq" => some do
+      -- a call sequence on a model whose initializers are in memory with the given bytes: after every call
+      -- where each initializer of the caller's model lives and what it reads (null: stale / unreadable)
+      let vals := (← getStrs j "vals").map ofHex
+      let ops ← (← getArr j "ops").mapM getSeqOp
+      let s0 : SeqState FileKey := { fs := fun _ => none, mem := vals.map Ref.inline, disk := none }
+      let rec go (s : SeqState FileKey) (ops : List (SeqOp FileKey)) (acc : List Json) : List Json :=
+        match ops with
+        | [] => acc.reverse
+        | op :: rest =>
+          match seqStep s op with
+          | none => (Json.str "undefined" :: acc).reverse
+          | some s' =>
+            let snap := obj [("mem", Json.arr (s'.mem.map refJ).toArray),
+              ("vals", Json.arr (s'.mem.map fun r => match r.value s'.fs with
+                | some bs => Json.str (toHex bs)
+                | none => Json.null).toArray),
+              ("disk", match s'.disk with
+                | some refs => Json.arr (refs.map refJ).toArray
+                | none => Json.null)]
+            go s' rest (snap :: acc)
+      return obj [("steps", Json.arr (go s0 ops []).toArray)]
+  | "layout.save_run_checked" => some do
+      -- `layout.save_run` with the finally block as a loop through the const_value setter
+      let vs ← getInits j "inits"
+      let thr ← getInt j "thr"
+      let fresh ← getNat j "fresh"
+      let cells ← getArr j "store"
+      let cells ← cells.mapM fun t => match t with
+        | Json.null => pure (none : Option Nat)
+        | x => do let n ← x.getNat?; pure (some n)
+      let st : Store := fun v => (cells[v]?).join
+      let plan := if (← getStr j "backend") = "st" then stPlan vs thr fresh else rawPlan vs thr fresh
+      let debug ← getBool j "debug"
+      let nonproto ← getNats j "nonproto"
+      let (mid, fin, raised) := saveRunChecked debug (fun o => !nonproto.contains o) st plan none
+      let dump (s : Store) : Json := Json.arr ((List.range cells.length).map fun v => optNatJ (s v)).toArray
+      return obj [("mid", dump mid), ("fin", dump fin), ("raised", toJson raised)]
+  | "layout.st_tables" => some do
+      return obj [
+        ("ir_to_name", Json.arr (irToStName.map fun (d, n) => Json.arr #[toJson d.code, Json.str n]).toArray),
+        ("names", Json.arr (stNameTable.map fun (n, sd) =>
+          Json.arr #[Json.str n, Json.str sd.headerName, toJson sd.rank, toJson sd.bits]).toArray),
+        ("st_to_ir", Json.arr (stToIr.map fun (n, d) => Json.arr #[Json.str n, toJson d.code]).toArray),
+        ("migrated", natsJ (migrated.map (·.code)))]
+  | "layout.st_file" => some do
+      -- one shard handed to serialize_file: writing order, header entries, whole file image
+      let ts ← getStTensors j "tensors"
+      match shardViews ts with
+      | none => return obj [("err", Json.str "dtype")]
+      | some vs =>
+        let es := stEntries vs
+        return obj [("entries", Json.arr (es.map entryJ).toArray),
+          ("n", toJson (stHeader es).length),
+          ("ok", toJson (vs.all fun v => stViewOk v.sd v.hshape v.bytes.length)),
+          ("file", Json.str (toHex (stFile vs)))]
+  | "layout.st_save" => some do
+      -- a whole `_save_file` on `tensors_to_save`: files, the record every saved value ends up with,
+      -- dtype and shape of the tensor it holds afterwards, and what reading the record returns
+      let ts ← getStTensors j "tensors"
+      let mx ← getOptNat j "max"
+      let names := ts.map (·.name)
+      if !stNamesOk names then return obj [("err", Json.str "names")]
+      match stShardViews ts mx with
+      | none => return obj [("err", Json.str "dtype")]
+      | some shards =>
+        let files := shards.map stFile
+        let res := stReplace names (stAssignments shards)
+        let allEntries := shards.flatMap stEntries
+        let reload := ts.map fun t =>
+          match allEntries.find? (fun e => e.name = t.name) with
+          | some e => (match reloadedDtypeShape t e with
+              | some (d, sh) => Json.arr #[toJson d.code, natsJ sh]
+              | none => Json.null)
+          | none => Json.null
+        let reads := res.map fun p => match p with
+          | some p => Json.str (toHex (readAt (files.getD p.shard []) p.offset p.length))
+          | none => Json.null
+        return obj [("files", Json.arr (files.map fun f => Json.str (toHex f)).toArray),
+          ("places", Json.arr (res.map optPlacementJ).toArray),
+          ("reload", Json.arr reload.toArray), ("reads", Json.arr reads.toArray)]
   | "layout.align" => some do
       return obj [("r", toJson (alignOffset (← getNat j "cur") (← getNat j "size")
         (← getOptNat j "al") (← getNat j "athr")))]
